@@ -6,8 +6,11 @@ The quantifier of C16 is  (function × engine × ColumnOrName position)  ×  eve
   `str`) and is decided by `decide +kernel` (`C16_table_check`);
 * the unbounded part (every name, every surrounding expression) is `C16_lift`.
 Full statement: `C16_full_statement`.  Proved: `C16_partial` under the named scope hypotheses
-`H_rawOperator`, `H_litOnName`, `H_formatAsText`, `H_parsedName` (Impl/C16.lean), each with a counterexample
-theorem whose witness the check replays on the real code.
+`H_rawOperator`, `H_litOnName`, `H_formatAsText`, `H_parsedName`, `H_listForm` (Impl/C16.lean), each with a
+counterexample theorem whose witness the check replays on the real code.
+Names and collections (second half of the file): `C16_struct_names` (field names of `struct` for every list of names),
+`C16_unpack_listForm` / `C16_cols_listForm` (ONE list argument means its elements), `C16_autoAlias` (the automatic alias
+cannot tell the two forms apart), `C16_named_partial` (C16_partial with the alias on).
 -/
 import SqlframeModel.Impl.C16
 namespace Sqlframe
@@ -82,9 +85,10 @@ theorem C16_rawOperator_root (parse : String → Ex) (n : String) :
 theorem C16_table_check : cells.all cellOk = true := by decide +kernel
 
 private theorem listed_false_of_inScope (c : Cell) (h : InScope c) : listed c = false := by
-  obtain ⟨h1, h2, h3, h4⟩ := h
+  obtain ⟨h1, h2, h3, h4, h5⟩ := h
   unfold H_rawOperator at h1; unfold H_litOnName at h2; unfold H_formatAsText at h3; unfold H_parsedName at h4
-  simp [listed, h1, h2, h3, h4]
+  unfold H_listForm at h5
+  simp [listed, h1, h2, h3, h4, h5]
 
 /-- `C16_table_partial`: every in-scope row of the generated table meets `ensure_col`. -/
 theorem C16_table_partial : ∀ c ∈ cells, InScope c → c.coercion = .ensureCol := by
@@ -153,6 +157,159 @@ example : parseStandIn "c" = .column "c" ∧ parseStandIn "a-b" ≠ .column "a-b
   have h2 : identLike "a-b" = false := by decide
   simp [parseStandIn, h1, h2]
 
+-- ------------------------------------------------------------------------------------------------
+-- names and collections
+-- ------------------------------------------------------------------------------------------------
+
+/-- `struct`: for EVERY list of names and whatever sqlglot reads into a name, the fields built from the names and the
+    fields built from `col(name)` are the same, and they are PySpark's: each field is the referenced column, named by
+    the LAST part of the reference (`aliasOf`), never by the caller's raw text.  Rests on the generated
+    `Gen.structFieldName = resolved` and on `colOnStr` / `colOnOther`. -/
+theorem C16_struct_names (N : Names) (ns : List String) :
+    structOf N structFieldName (strArgs ns) = specStruct N ns ∧
+    structOf N structFieldName (colArgs ns) = specStruct N ns := by
+  constructor
+  · simp only [structOf, specStruct, strArgs, List.map_map]
+    congr 1
+  · simp only [structOf, specStruct, colArgs, List.map_map]
+    congr 1
+
+/-- The class of change `Gen.structFieldName` guards against: were the field named by the caller's raw text, the two
+    forms would differ for every name whose text is not already the identifier of its last part (`s.x`, `t.a`, …). -/
+theorem C16_struct_raw_differs (N : Names) (n : String) (h : N.identOf n ≠ N.identOf (N.aliasOf (.column n))) :
+    structOf N .raw [.str n] ≠ structOf N .raw [.colObj (.column n)] := by
+  simp [structOf, structField, fieldNameText, h]
+
+/-- Every place in functions.py / function_alternatives.py that makes an identifier, an alias or a keyword out of text
+    derived from a column argument (regenerated `Gen.nameSites`: struct, extract on BigQuery, the array_min / array_max
+    subqueries, …) takes the text from the RESOLVED column; hence, at every such site, for every name and whatever
+    sqlglot reads into names, the name and `col(name)` give the same text: the last part of the reference. -/
+theorem C16_nameSites_forms : ∀ s ∈ nameSites, ∀ (N : Names) (n : String),
+    fieldNameText N s.2 (.str n) = N.aliasOf (.column n) ∧
+    fieldNameText N s.2 (.colObj (.column n)) = N.aliasOf (.column n) := by
+  have hall : nameSites.all (fun s => s.2 == .resolved) = true := by decide
+  intro s hs N n
+  have h := List.all_eq_true.mp hall s hs
+  have h2 : s.2 = .resolved := by simpa using h
+  rw [h2]
+  simp [fieldNameText, colFn, routeStr, colOnStr, colOnOther, columnCtor]
+
+/-- ONE list argument means its elements: for every site whose flattener splices and every non-empty list of arguments,
+    `f([a, b, …])` unpacks to exactly what `f(a, b, …)` unpacks to, namely the elements. -/
+theorem C16_unpack_listForm (s : UnpackSite) (hs : s.flattener.splices = true) (a : Arg) (as : List Arg) :
+    s.unpack (.oneList (a :: as)) = some (a :: as) ∧ s.unpack (.varargs (a :: as)) = some (a :: as) := by
+  unfold UnpackSite.unpack
+  cases hf : s.flattener <;> simp [hf, Flattener.splices] at hs <;> cases a <;> simp [unpack]
+
+/-- A site whose flattener does not splice: the varargs form still works when the scalar guard names the kind of the
+    first argument, the list form raises (root cause of `H_listForm`). -/
+theorem C16_unpack_broken (s : UnpackSite) (hs : s.flattener.splices = false) (as : List Arg) :
+    s.unpack (.oneList as) = none ∧
+    (s.guardStr = true → ∀ n rest, s.unpack (.varargs (.str n :: rest)) = some (.str n :: rest)) := by
+  unfold UnpackSite.unpack
+  cases hf : s.flattener <;> simp [hf, Flattener.splices] at hs <;> simp [unpack]
+  all_goals intro hg n rest; simp [hg]
+
+/-- `*cols` functions: over a splicing site, the names in ONE list, the names as varargs, and `col(name)` objects in
+    either form all give PySpark's expression — for every non-empty list of names and every body `k`. -/
+theorem C16_cols_listForm (parse : String → Ex) (s : UnpackSite) (hs : s.flattener.splices = true) (k : List Ex → Ex)
+    (n : String) (ns : List String) :
+    let spec := some (k ((n :: ns).map .column))
+    colsCall parse s k (.oneList (strArgs (n :: ns))) = spec ∧
+    colsCall parse s k (.varargs (strArgs (n :: ns))) = spec ∧
+    colsCall parse s k (.oneList (colArgs (n :: ns))) = spec ∧
+    colsCall parse s k (.varargs (colArgs (n :: ns))) = spec := by
+  have hstr : (strArgs (n :: ns)).map (ensureCol parse) = (n :: ns).map .column := by
+    simp [strArgs, List.map_map, Function.comp_def, C16_ensureCol_str]
+  have hcol : (colArgs (n :: ns)).map (ensureCol parse) = (n :: ns).map .column := by
+    simp [colArgs, List.map_map, Function.comp_def, C16_ensureCol_col]
+  have h1 := C16_unpack_listForm s hs (.str n) (strArgs ns)
+  have h2 := C16_unpack_listForm s hs (.colObj (.column n)) (colArgs ns)
+  simp only [strArgs, colArgs, List.map_cons] at h1 h2 hstr hcol ⊢
+  simp only [colsCall, h1.1, h1.2, h2.1, h2.2, Option.map_some, List.map_cons, hstr, hcol, and_self]
+
+/-- `struct` as a whole (its generated site and name source): names or `col(name)`, as varargs or as ONE list. -/
+theorem C16_struct_call (N : Names) (s : UnpackSite) (hs : s.flattener.splices = true) (n : String) (ns : List String) :
+    structCall N s structFieldName (.oneList (strArgs (n :: ns))) = some (specStruct N (n :: ns)) ∧
+    structCall N s structFieldName (.varargs (strArgs (n :: ns))) = some (specStruct N (n :: ns)) ∧
+    structCall N s structFieldName (.oneList (colArgs (n :: ns))) = some (specStruct N (n :: ns)) ∧
+    structCall N s structFieldName (.varargs (colArgs (n :: ns))) = some (specStruct N (n :: ns)) := by
+  have h1 := C16_unpack_listForm s hs (.str n) (strArgs ns)
+  have h2 := C16_unpack_listForm s hs (.colObj (.column n)) (colArgs ns)
+  have e1 := (C16_struct_names N (n :: ns)).1
+  have e2 := (C16_struct_names N (n :: ns)).2
+  simp only [strArgs, colArgs, List.map_cons] at h1 h2 e1 e2 ⊢
+  simp only [structCall, h1.1, h1.2, h2.1, h2.2, Option.map_some, e1, e2, and_self]
+
+/-- The generated sites against the generated table, decided by the kernel: the scalar guard of every site names both
+    `str` and Column, and every list-form cell (element 2 / 3) that does not meet `ensure_col` belongs to a function
+    whose site, for that engine, does not splice (so `H_listForm` excludes nothing else). -/
+theorem C16_sites_check :
+    unpackSites.all (fun s => s.guardStr && s.guardColumn) = true ∧
+    cells.all (fun c => decide (c.sub < 2) || c.coercion == .ensureCol || listFormBroken c) = true := by
+  constructor
+  · decide
+  · decide +kernel
+
+/-- The automatic alias cannot tell the two forms apart: the wrapper reads nothing but the function's result
+    (generated `Gen.autoAliasFromResultOnly`), so wherever the undecorated results agree the decorated ones do. -/
+theorem C16_autoAlias (N : Names) (fn : String) (raw₁ raw₂ : Option String) (e : Ex) :
+    autoAlias N autoAliasFromResultOnly fn raw₁ e = autoAlias N autoAliasFromResultOnly fn raw₂ e := by
+  simp [autoAlias, autoAliasFromResultOnly]
+
+/-- The class of change `Gen.autoAliasFromResultOnly` guards against: a wrapper that reads the caller's raw argument
+    names the result differently for a name and for `col(name)` as soon as the raw text is not the result's own first
+    identifier. -/
+theorem C16_autoAlias_raw_differs (N : Names) (fn : String) (hfn : fn ∉ noAutoAlias) (n : String) (e : Ex)
+    (h : n ≠ N.firstIdent e) :
+    autoAlias N false fn (rawFirstOf (.str n)) e ≠ autoAlias N false fn (rawFirstOf (.colObj (.column n))) e := by
+  simp [autoAlias, hfn, rawFirstOf, h]
+
+/-- `C16_partial` with the wrapper on: for every in-scope cell, every name, every body and whatever sqlglot reads into
+    names, the decorated result — expression AND the name it carries — is PySpark's for both forms. -/
+theorem C16_named_partial : ∀ c ∈ cells, InScope c → ∀ (N : Names) (fn : String) (k : Ex → Ex) (n : String),
+    decorated N fn k c.coercion (.str n) = specDecorated N fn k n ∧
+    decorated N fn k c.coercion (.colObj (.column n)) = specDecorated N fn k n := by
+  intro c hc hs N fn k n
+  have h := C16_partial c hc hs N.parse k n
+  simp only [decorated, specDecorated, h.1, h.2, specResult, Option.map_some, Option.some.injEq]
+  exact ⟨C16_autoAlias N fn _ _ _, C16_autoAlias N fn _ _ _⟩
+
+/-- counterexample for `H_listForm` (replayed by the check: `map_concat(['c', 'd'])` raises on the standalone session
+    while `map_concat('c', 'd')` works) -/
+theorem C16_cex_listForm (parse : String → Ex) (s : UnpackSite) (hs : s ∈ unpackSites) (hapi : s.api = "map_concat")
+    (k : List Ex → Ex) :
+    colsCall parse s k (.oneList (strArgs ["c", "d"])) = none ∧
+    colsCall parse s k (.varargs (strArgs ["c", "d"])) = some (k [.column "c", .column "d"]) := by
+  have hall : unpackSites.all (fun s => s.api != "map_concat" || (!s.flattener.splices && s.guardStr)) = true := by decide
+  have h := List.all_eq_true.mp hall s hs
+  simp only [hapi, bne_self_eq_false, Bool.false_or, Bool.and_eq_true, Bool.not_eq_true', ] at h
+  have hb := C16_unpack_broken s h.1 (strArgs ["c", "d"])
+  have hv := hb.2 h.2 "c" [.str "d"]
+  simp only [strArgs, List.map_cons, List.map_nil] at hb hv ⊢
+  simp only [colsCall, hb.1, hv, Option.map_none, Option.map_some, List.map_cons, List.map_nil, C16_ensureCol_str, and_self]
+
+-- non-vacuity (names and collections) ---------------------------------------------------------------
+
+/-- splicing sites exist and are reachable on every engine (`array`), so `C16_cols_listForm` / `C16_struct_call` apply -/
+example : Engine.all.all (fun e => unpackSites.any (fun s => s.api == "array" && s.engines.contains e && s.flattener.splices)) = true := by
+  decide
+example : unpackSites.any (fun s => s.api == "struct" && s.flattener.splices) = true := by decide
+/-- list-form cells that are in scope exist in the generated table -/
+example : cells.any (fun c => decide (c.sub ≥ 2) && !listed c && c.coercion == .ensureCol) = true := by decide +kernel
+/-- `C16_struct_raw_differs` has instances: with the symbolic names the qualified name `s.x` is one -/
+example : symNames.identOf "s.x" ≠ symNames.identOf (symNames.aliasOf (.column "s.x")) := by decide
+/-- `C16_struct_names` at a concrete list, written out -/
+example : structOf symNames structFieldName (strArgs ["s.x", "c"]) =
+    .app "STRUCT" [
+      .app "PropertyEQ" [.app "Identifier" [.strLit "identOf(aliasOf(col[s.x]))"], .column "s.x"],
+      .app "PropertyEQ" [.app "Identifier" [.strLit "identOf(aliasOf(col[c]))"], .column "c"]] :=
+  (C16_struct_names symNames ["s.x", "c"]).1
+/-- naming sites exist (`C16_nameSites_forms` is not about an empty list) -/
+example : nameSites.any (fun s => s.1 == "struct") = true ∧ nameSites.any (fun s => s.1 == "extract") = true := by decide
+/-- a function outside `noAutoAlias` exists for `C16_autoAlias_raw_differs` -/
+example : "upper" ∉ noAutoAlias := by decide
+
 /-- C16 at full strength: for every cell, every name, every context, both forms give PySpark's expression. -/
 def C16_full_statement : Prop :=
   ∀ c ∈ cells, ∀ (parse : String → Ex) (k : Ex → Ex) (n : String),
@@ -165,7 +322,7 @@ theorem C16_full_of_no_listed (h : ∀ c ∈ cells, listed c = false) : C16_full
   have hl := h c hc
   have hs : InScope c := by
     simp only [listed, Bool.or_eq_false_iff] at hl
-    exact ⟨hl.1.1.1, hl.1.1.2, hl.1.2, hl.2⟩
+    exact ⟨hl.1.1.1.1, hl.1.1.1.2, hl.1.1.2, hl.1.2, hl.2⟩
   exact C16_partial c hc hs parse k n
 
 end Sqlframe
